@@ -78,6 +78,13 @@ def run(tier):
         nn += 1
         for p in o['problems']:
             what = f"{c['label']}: {p}"
+            # KF-C13-5: the pretty-printed text ends rules with a blank line only; the () inside the grammar's own empty_closure rule
+            # skips those line breaks, so a rule whose text ends in {} swallows the header of the next rule as a named element
+            import re as _re
+            if _re.search(r'\{\}[ \t]*\n\n+\S', o.get('pretty') or '') and ('does not compile' in p or 'recompiled model differs' in p
+                                                                            or 'behaviour differs' in p or 'not a fixpoint' in p) \
+                    and ck.known('KF-C13-5', what[:200]):
+                continue
             ck.violation({'kind': 'parse', 'inputs': {'grammar': c['ebnf'], 'label': c['label'], 'pretty': o.get('pretty')},
                           'expected': 'pretty() recompiles to the same parser and is a fixpoint', 'observed': p, 'spec': 'C13'},
                          key=c['label'].split(' ')[0] + p.split(':')[0][:40])
